@@ -230,6 +230,12 @@ def make_invalid(rng, entry, kind, call, objs):
             call[tname] = spec
             nums = [side + 'x_num']
         call[side + '_attr'] = rng.choice(nums)
+        col = call[side + '_attr']
+        if str(call[tname]['dtypes'].get(col)).startswith('float') and rng.random() < 0.4:
+            # a float column holding nothing but NaN is still a numeric column
+            spec = dict(call[tname], data=dict(call[tname]['data']))
+            spec['data'][col] = [gen.NAN] * T.spec_len(spec)
+            call[tname] = spec
     elif kind in ('l_key_dup', 'r_key_dup'):
         spec = dict(call[tname])
         spec['data'] = dict(spec['data'])
@@ -428,6 +434,9 @@ def accept_case(case, rec, ssj):
         call['r_key'] = 'rattr'
         call['l_out_attrs'] = rng.choice([None, ['lx'], ['lattr', 'lid']])
         call['r_out_attrs'] = rng.choice([None, ['rx', 'rid']])
+        if rng.random() < 0.3:
+            L['no_duplicate_labels'] = R['no_duplicate_labels'] = True     # df.set_flags(allows_duplicate_labels=False)
+            call['keep_flags'] = True
     if entry in T.JOINS:
         call['api'] = entry
         call['allow_missing'] = am
@@ -500,8 +509,11 @@ def accept_case(case, rec, ssj):
     try:
         res = T.exec_call(ssj, call)
     except Exception as e:
+        known = None
+        if type(e).__name__ == 'DuplicateLabelError' and call.get('keep_flags') and case.get('keyjoin'):
+            known = 'flagged-frame-key-is-join-attr'        # F15: mechanism = the library's own [key, join] projection
         rec.violation('valid_rejected', tag + 'a call satisfying every documented precondition raised '
-                      '%s: %s' % (type(e).__name__, str(e)[:200]), case=case)
+                      '%s: %s' % (type(e).__name__, str(e)[:200]), case=case, known_key=known)
         return
     if not isinstance(res, pd.DataFrame):
         rec.violation('not_a_dataframe', tag + 'returned %s' % type(res).__name__, case=case)
